@@ -167,10 +167,11 @@ Section Apps.
     destruct (w2e wf' passthrough (wf_fuel wf) tg _) as [[e0 E1]|]; [|reflexivity].
     rewrite w2t_perm.
     destruct (w2t add_from pinned wf' (e_tab E1) (wf_fuel wf) tg g_empty) as [[res st1]|]; [|reflexivity].
-    destruct (indir_loop add_from add_from_r pinned (e_ind E1) st1) as [st2|]; [|reflexivity].
-    rewrite inputs_loop_perm.
-    destruct (inputs_loop add_from pinned wf' (e_tab E1) (wf_fuel wf) (w_srcs wf) st2) as [[ins st3]|];
-      [|reflexivity].
-    rewrite result_map_t_perm. reflexivity.
+    rewrite result_map_t_perm.
+    destruct (if pinned then Some st1
+              else option_map snd (result_map_t add_from pinned wf' (e_tab E1) (wf_fuel wf) (e_tab E1) st1))
+      as [st1'|]; [|reflexivity].
+    destruct (indir_loop add_from add_from_r pinned (e_ind E1) st1') as [st2|]; [|reflexivity].
+    rewrite inputs_loop_perm. reflexivity.
   Qed.
 End Apps.
